@@ -19,8 +19,15 @@ Kinds == {"box", "mut", "ref"}
 Cells == UNION {{[n |-> n, enabled |-> AsSeq(s), req |-> AsSeq(r), op |-> o, kind |-> k, ok |-> (r \subseteq s)] :
                    s \in SUBSET OptsOf(n), r \in (SUBSET OptsOf(n)) \ {{}}, o \in Ops, k \in Kinds} : n \in 0..4}
 
+(* groups built from the FORWARD view of a value (`x.forward_mut()`, type Fwd<&mut T>): `cglue_impl_group!(T, G, {owned}, *)
+(* {forward})` names the optional traits of the two kinds of object independently.  The verdict for an object built     *)
+(* from the forward view follows the forward list - whatever the owned list says.                                       *)
+FOpts == {"Oa", "Ob"}
+FwdCells == {[n |-> 2, via |-> "fwd", owned |-> AsSeq(so), enabled |-> AsSeq(sf), req |-> AsSeq(r), op |-> o, kind |-> k, ok |-> (r \subseteq sf)] :
+               so \in SUBSET FOpts, sf \in SUBSET FOpts, r \in (SUBSET FOpts) \ {{}}, o \in Ops, k \in Kinds}
+
 VARIABLE done
 Init == done = FALSE
 Next == UNCHANGED done
-Emit == PrintT(<<"REPLAY", ToJson([cells |-> Cells])>>)
+Emit == PrintT(<<"REPLAY", ToJson([cells |-> Cells, fwdcells |-> FwdCells])>>)
 =============================================================================
